@@ -77,7 +77,16 @@ func equiv(a, b reflect.Value, path string) (bool, string) {
 // exactPeriodRange: the span the duration text of the period type represents exactly.
 const exactPeriodRange = 3276 * 24 * time.Hour
 
+// caseStarted: when the round trip being judged began (set before the value is encoded). Relative end times are
+// re-expressed against the clock at every encoding and decoding, so the steps of one round trip may lie as far apart
+// as the machine takes - on a busy machine seconds. That time is allowed for on the side it works on; it never hides
+// more than it explains.
+var caseStarted = time.Now()
+
+func beginRoundTrip() { caseStarted = time.Now() }
+
 func equivPeriod(a, b model.TimePeriodType, path string) (bool, string) {
+	taken := time.Since(caseStarted)
 	if a.StartTime == nil && a.EndTime != nil && a.EndTime.IsRelativeTime() {
 		// re-expressed against the current time: compare the remaining duration within 1 s (+ slack)
 		da, err1 := a.GetDuration()
@@ -89,7 +98,7 @@ func equivPeriod(a, b model.TimePeriodType, path string) (bool, string) {
 			world.Label("timeperiod/beyond-exact-duration-range")
 			return true, ""
 		}
-		if d := da - db; d > 1200*time.Millisecond || d < -1200*time.Millisecond {
+		if d := da - db; d > 1200*time.Millisecond+taken || d < -1200*time.Millisecond {
 			return false, fmt.Sprintf("%s: remaining %v vs %v", path, da, db)
 		}
 		return true, ""
@@ -116,7 +125,7 @@ func equivPeriod(a, b model.TimePeriodType, path string) (bool, string) {
 			world.Label("timeperiod/beyond-exact-duration-range")
 			return true, ""
 		}
-		if d := ta.Sub(tb); d > 2200*time.Millisecond || d < -2200*time.Millisecond {
+		if d := ta.Sub(tb); d > 2200*time.Millisecond || d < -(2200*time.Millisecond+taken) {
 			return false, fmt.Sprintf("%s: end time moved by %v (%s vs %s)", path, d, *a.EndTime, *b.EndTime)
 		}
 		return true, ""
@@ -184,6 +193,7 @@ func TestValueRoundTrip(t *testing.T) {
 			holder, back = reflect.New(reflect.TypeOf(model.FilterType{})), reflect.New(reflect.TypeOf(model.FilterType{}))
 		}
 		holder.Elem().FieldByName(rt.field.Name).Set(v)
+		beginRoundTrip()
 		b, err := json.Marshal(holder.Interface())
 		if err != nil {
 			world.Fail(t, "C18/value/marshal/"+rt.field.Name, "marshal %s: %v", rt.field.Name, err)
@@ -313,6 +323,7 @@ func checkCmd(t world.TB, f *gen.Func, shape string, cmd model.CmdType, wantPart
 // oneCmd builds shape for f through the public API and checks it. Returns false if the shape does
 // not apply to f (no selectors / elements type).
 func oneCmd(t *rapid.T, f *gen.Func, shape string) bool {
+	beginRoundTrip()
 	nsel, nelem := needs(shape)
 	if (nsel && f.SelectorsType == nil) || (nelem && f.ElementsType == nil) {
 		return false
@@ -501,6 +512,7 @@ func TestFactoryTables(t *testing.T) {
 func TestWire(t *testing.T) {
 	fs := gen.Table()
 	rapid.Check(t, world.Prop(func(t *rapid.T) {
+		beginRoundTrip()
 		f := fs[rapid.IntRange(0, len(fs)-1).Draw(t, "function")]
 		if f.FeatureType == model.FeatureTypeTypeNodeManagement {
 			f = *gen.ByFunction(model.FunctionTypeMeasurementListData)
@@ -635,6 +647,7 @@ func FuzzCmdJSON(f *testing.F) {
 	}
 	f.Add([]byte(`{"function":"measurementListData","filter":[{"cmdControl":{"partial":{}},"measurementListDataSelectors":{"measurementId":1}}],"measurementListData":{"measurementData":[{"measurementId":1,"value":{"number":5,"scale":-1},"evaluationPeriod":{"endTime":"PT1H"}}]}}`))
 	f.Fuzz(func(t *testing.T, in []byte) {
+		beginRoundTrip()
 		var a model.CmdType
 		if json.Unmarshal(in, &a) != nil {
 			return
@@ -705,7 +718,9 @@ func TestTagCoherence(t *testing.T) {
 			}
 			cands = append(cands, base)
 		default:
-			world.Guard(func() { world.Fail(t, "C18/tag/unknown-filter-field/"+name, "FilterType.%s is neither selectors nor elements", sf.Name) })
+			world.Guard(func() {
+				world.Fail(t, "C18/tag/unknown-filter-field/"+name, "FilterType.%s is neither selectors nor elements", sf.Name)
+			})
 			continue
 		}
 		want := ""
